@@ -224,20 +224,22 @@ void h_mgl_sib(void)
 {
 	uint16_t n = nondet_ushort(), r, l;
 	unsigned x = nondet_uint(), c = nondet_uint();
-	Node nx, nn, nl;
-	uint16_t ld, lf;
+	unsigned nx_leaf, nx_child, nn_leaf, nn_child, nl_leaf, nl_child;
+	uint16_t nx_freq, nx_group, ld;
 	vg_havoc();
-	__CPROVER_assume(n < VG_NN && x < VG_NN && c < VG_NC);
+	__CPROVER_assume(n < VG_NN && x < VG_NN && c < VG_NN);
 	__CPROVER_assume(VG_SIB1(n));
 	l = VG_LD(VG_G(n));
 	__CPROVER_assume(VG_KID(x) && VG_KID(n) && VG_KID(l));
-	nx = VG_ND(x); nn = VG_ND(n); nl = VG_ND(l); ld = VG_LD(c < VG_NN ? c : 0); lf = vg_dec.leaf_nodes[c];
+	nx_leaf = VG_ND(x).leaf; nx_child = VG_ND(x).child_index; nx_freq = VG_F(x); nx_group = VG_G(x);
+	nn_leaf = VG_ND(n).leaf; nn_child = VG_ND(n).child_index; nl_leaf = VG_ND(l).leaf; nl_child = VG_ND(l).child_index;
+	ld = VG_LD(c);
 	r = make_group_leader(&vg_dec, n);
 	__CPROVER_assert(r == l, "C02 make_group_leader: returns the recorded leader of the node's group");
-	__CPROVER_assert(VG_F(x) == nx.freq && VG_G(x) == nx.group && VG_LD(c < VG_NN ? c : 0) == ld, "C02 make_group_leader: frequencies, groups and leaders are untouched");
-	__CPROVER_assert((x == n || x == l) || (VG_ND(x).leaf == nx.leaf && VG_ND(x).child_index == nx.child_index),
+	__CPROVER_assert(VG_F(x) == nx_freq && VG_G(x) == nx_group && VG_LD(c) == ld, "C02 make_group_leader: frequencies, groups and leaders are untouched");
+	__CPROVER_assert((x == n || x == l) || (VG_ND(x).leaf == nx_leaf && VG_ND(x).child_index == nx_child),
 	                 "C02 make_group_leader: nodes other than the two exchanged keep their subtree");
-	__CPROVER_assert(VG_ND(l).leaf == nn.leaf && VG_ND(l).child_index == nn.child_index && VG_ND(n).leaf == nl.leaf && VG_ND(n).child_index == nl.child_index,
+	__CPROVER_assert(VG_ND(l).leaf == nn_leaf && VG_ND(l).child_index == nn_child && VG_ND(n).leaf == nl_leaf && VG_ND(n).child_index == nl_child,
 	                 "C02 make_group_leader: the node and the leader exchange subtrees (LZHUF exchange with the boundary node of the equal-frequency run)");
 	__CPROVER_assert(VG_KID(x), "C02 make_group_leader: leaf map and parent links follow the exchange (arbitrary node)");
 	VG_CANARY("mgl_sib");
